@@ -407,14 +407,29 @@ func (bmach *Bondmachine) Write_verilog_main(conf *Config, module_name string, f
 
 			result += "	" + sname + strconv.Itoa(seq[sname]) + " " + sname + strconv.Itoa(seq[sname]) + "_inst (clk, reset"
 
+			perProcPorts := ""
 			for procId, solist := range bmach.Shared_links {
 				for _, soId := range solist {
 					if soId == i {
-						result += bmach.Shared_objects[soId].GetPerProcPortsHeader(bmach, procId, soId, flavor)
+						perProcPorts += bmach.Shared_objects[soId].GetPerProcPortsHeader(bmach, procId, soId, flavor)
 						// result += bmach.Shared_objects[soId].GetExternalPortsHeader(bmach, procId, soId, flavor)
 					}
 				}
 			}
+			if sname == "st" || sname == "q" {
+				// The stack/queue module lists the ports of every sender before those of every receiver,
+				// the instance is connected by position: same order here
+				senders, receivers := "", ""
+				for _, port := range strings.Split(perProcPorts, ", ")[1:] {
+					if strings.Contains(port, "sender") {
+						senders += ", " + port
+					} else {
+						receivers += ", " + port
+					}
+				}
+				perProcPorts = senders + receivers
+			}
+			result += perProcPorts
 
 			for procId, solist := range bmach.Shared_links {
 				for _, soId := range solist {
